@@ -2,4 +2,5 @@ pub mod alloc;
 pub mod framework;
 pub mod monitor;
 pub mod net;
+pub mod proc;
 pub mod rng;
